@@ -15,6 +15,23 @@ package main
 //               treated as additional word parameters named by mangling (f_char, a_field_extDeg, f_Card);
 //               assigned selectors (a.val ^= …) become mutable variables whose final values are returned
 //               when the function returns its receiver.
+//   slices      []uint is a Lean `List Nat` (a value): literals, make([]uint, n), append(s, x…) = s ++ [x…],
+//               append(s, r...) = s ++ r, len; `for _, x := range []uint{e1, …}` (no break/continue) is
+//               unrolled after evaluating the elements; indexing of slices is NOT supported
+//   switch      `switch x { case a, b: … }` on a variable (no break/fallthrough)
+//   loops       may be nested; `return` inside a loop only at nesting depth one; `break` belongs to the
+//               innermost loop
+//   recursion   a function that calls itself gets a recursion fuel as first argument:
+//               `go_f : Nat → args → res`, `go_f 0 _ = default`, the body calls `self := go_f recFuel`;
+//               callers pass `loopFuel`
+//   local objects  `x := a.Copy()`, `x := a.field.One()` (a call rooted at an object parameter) makes x a
+//               local object represented by its value word; `x.M(args)` as an expression is
+//               `method_M x args`, as a statement `x := method_M x args`, with `method_M` an uninterpreted
+//               function parameter (assumption: a method statement changes the value of its receiver
+//               only, as a function of the values of receiver and arguments); object arguments are
+//               passed as their `val` (a_val)
+//   shadowing   a function in which a name is declared again in a nested scope is refused (the
+//               continuation-passing translation into Lean `let`s would confuse the two variables)
 //
 // Control flow is translated by duplicating the continuation into both branches of a conditional, so no
 // join points are needed (the functions are tiny).
@@ -47,6 +64,11 @@ type tr struct {
 	retTy    string            // Lean type of the function result (tuple)
 	vars     []string          // all variable names that may be live (for loop state)
 	types    map[string]string // variable -> go type ("uint","int","bool","[2]uint","error","func")
+	selfName string            // Go name of the function when it calls itself (translated with a recursion fuel)
+	selfTy   string            // Lean type of `self` (the function one fuel level below)
+	rangeN   *int              // counter of unrolled `range` statements (shared by sub-translators)
+	methods  map[string]string // (unused)
+	localObj map[string]bool   // local variables holding an object (`x := a.Copy()`), represented by the value word
 }
 
 func (t *tr) fail(format string, a ...interface{}) string {
@@ -96,8 +118,8 @@ func rootIdent(e ast.Expr) string {
 
 func (t *tr) selector(e ast.Expr) (string, bool) {
 	r := rootIdent(e)
-	if r == "" || !t.params[r] {
-		return "", false
+	if r == "" || !t.params[r] || (t.localObj != nil && t.localObj[r]) {
+		return "", false // (observations of a local object depend on its current value: see localMethod)
 	}
 	m, ok := mangle(e)
 	if !ok {
@@ -113,8 +135,8 @@ func (t *tr) selector(e ast.Expr) (string, bool) {
 // selectorTyped registers a mangled selector parameter with an explicit Lean type
 func (t *tr) selectorTyped(e ast.Expr, suffix, leanTy string) (string, bool) {
 	r := rootIdent(e)
-	if r == "" || !t.params[r] {
-		return "", false
+	if r == "" || !t.params[r] || (t.localObj != nil && t.localObj[r]) {
+		return "", false // (observations of a local object depend on its current value: see localMethod)
 	}
 	m, ok := mangle(e)
 	if !ok {
@@ -179,8 +201,16 @@ func (t *tr) typeOf(e ast.Expr) string {
 			return "uint"
 		case "int":
 			return "int"
-		case "bits.Len", "bits.OnesCount":
+		case "bits.Len", "bits.OnesCount", "len":
 			return "int"
+		case "append":
+			if len(v.Args) > 0 {
+				return t.typeOf(v.Args[0])
+			}
+		case "make":
+			if len(v.Args) > 0 {
+				return src(v.Args[0])
+			}
 		}
 		if id, ok := v.Fun.(*ast.Ident); ok {
 			if ty, ok := t.types["ret:"+id.Name]; ok {
@@ -205,6 +235,9 @@ func (t *tr) typeOf(e ast.Expr) string {
 		}
 		return "uint"
 	case *ast.CompositeLit:
+		if ty := src(v.Type); ty == "[]uint" {
+			return ty
+		}
 		return "[2]uint"
 	}
 	return "uint"
@@ -248,6 +281,16 @@ func (t *tr) expr(e ast.Expr) string {
 	case *ast.CompositeLit:
 		if src(v.Type) == "[2]uint" && len(v.Elts) == 2 {
 			return "(" + t.expr(v.Elts[0]) + ", " + t.expr(v.Elts[1]) + ")"
+		}
+		if src(v.Type) == "[]uint" {
+			var es []string
+			for _, el := range v.Elts {
+				if _, isKV := el.(*ast.KeyValueExpr); isKV {
+					return t.fail("composite %s", src(v))
+				}
+				es = append(es, t.expr(el))
+			}
+			return "[" + strings.Join(es, ", ") + "]"
 		}
 		return t.fail("composite %s", src(v))
 	case *ast.UnaryExpr:
@@ -337,6 +380,38 @@ func (t *tr) expr(e ast.Expr) string {
 			return "(Int.ofNat (bitLen " + t.expr(v.Args[0]) + "))"
 		case "bits.OnesCount":
 			return "(Int.ofNat (popCount " + t.expr(v.Args[0]) + "))"
+		case "append":
+			// append(s, x, y) = s ++ [x, y];  append(s, r...) = s ++ r   (slices are values: Lean lists)
+			if len(v.Args) >= 1 && t.typeOf(v.Args[0]) == "[]uint" {
+				if v.Ellipsis.IsValid() {
+					if len(v.Args) == 2 {
+						return "(" + t.expr(v.Args[0]) + " ++ " + t.argExpr(v.Args[1]) + ")"
+					}
+					return t.fail("append %s", src(v))
+				}
+				var es []string
+				for _, a := range v.Args[1:] {
+					es = append(es, t.expr(a))
+				}
+				return "(" + t.expr(v.Args[0]) + " ++ [" + strings.Join(es, ", ") + "])"
+			}
+			return t.fail("append %s", src(v))
+		case "make":
+			if len(v.Args) == 2 && src(v.Args[0]) == "[]uint" {
+				if bl, ok := v.Args[1].(*ast.BasicLit); ok && bl.Value == "0" {
+					return "([] : List Nat)"
+				}
+				if t.typeOf(v.Args[1]) == "int" {
+					return "(List.replicate (Int.toNat " + t.argExpr(v.Args[1]) + ") (0 : Nat))"
+				}
+				return "(List.replicate " + t.argExpr(v.Args[1]) + " (0 : Nat))"
+			}
+			return t.fail("make %s", src(v))
+		case "len":
+			if len(v.Args) == 1 && t.typeOf(v.Args[0]) == "[]uint" {
+				return "(Int.ofNat (List.length " + t.argExpr(v.Args[0]) + "))"
+			}
+			return t.fail("len %s", src(v))
 		case "errors.New":
 			if len(v.Args) >= 2 {
 				if k, ok := kindLean[strings.TrimPrefix(src(v.Args[1]), "errors.")]; ok {
@@ -374,6 +449,13 @@ func (t *tr) expr(e ast.Expr) string {
 				}
 			}
 		}
+		if m, recv, ok := t.localMethod(v); ok {
+			// `x.M(args)` on a local object variable x (represented by its value word): an uninterpreted
+			// function of the current value of x and the arguments
+			margs := append([]string{recv}, t.methodArgs(v.Args)...)
+			t.registerMethod(m, len(margs))
+			return "(" + m + " " + strings.Join(margs, " ") + ")"
+		}
 		// selector call without arguments on a parameter: a field-like observation
 		if len(v.Args) == 0 {
 			if m, ok := t.selector(v); ok {
@@ -385,7 +467,8 @@ func (t *tr) expr(e ast.Expr) string {
 			args = append(args, t.argExpr(a))
 		}
 		if sel, ok := v.Fun.(*ast.SelectorExpr); ok && len(v.Args) > 0 {
-			if r := rootIdent(sel); r != "" && t.params[r] && !isPkgName(r) {
+			// (only for object parameters / the receiver: a method of a local variable depends on its current value)
+			if r := rootIdent(sel); r != "" && t.params[r] && !isPkgName(r) && t.types[r] == "object" {
 				var tys []string
 				for _, a := range v.Args {
 					if t.typeOf(a) == "int" {
@@ -402,6 +485,9 @@ func (t *tr) expr(e ast.Expr) string {
 		switch fun := v.Fun.(type) {
 		case *ast.Ident:
 			name := fun.Name
+			if t.selfName != "" && name == t.selfName && !t.params[name] {
+				return "(self " + strings.Join(args, " ") + ")"
+			}
 			if ln, ok := t.known[name]; ok {
 				name = ln
 			} else if !t.params[name] && t.types[name] != "func" {
@@ -416,6 +502,45 @@ func (t *tr) expr(e ast.Expr) string {
 		return t.funcLit(v)
 	}
 	return t.fail("expression %s", src(e))
+}
+
+// localMethod recognises `x.M(…)` where x is a local variable holding an object as a word (`x := a.Copy()`)
+func (t *tr) localMethod(c *ast.CallExpr) (name, recv string, ok bool) {
+	sel, isSel := c.Fun.(*ast.SelectorExpr)
+	if !isSel {
+		return "", "", false
+	}
+	id, isId := sel.X.(*ast.Ident)
+	if !isId || !t.params[id.Name] || t.types[id.Name] != "uint" || isPkgName(id.Name) || t.localObj == nil || !t.localObj[id.Name] {
+		return "", "", false
+	}
+	return "method_" + sel.Sel.Name, id.Name, true
+}
+
+// arguments of a method of a local object: words, or objects (parameters / receiver) given by their `val`
+func (t *tr) methodArgs(args []ast.Expr) []string {
+	var out []string
+	for _, a := range args {
+		if id, ok := a.(*ast.Ident); ok && t.types[id.Name] == "object" {
+			if m, ok := t.selector(&ast.SelectorExpr{X: id, Sel: ast.NewIdent("val")}); ok {
+				out = append(out, m)
+				continue
+			}
+		}
+		out = append(out, t.argExpr(a))
+	}
+	return out
+}
+
+func (t *tr) registerMethod(m string, arity int) {
+	ty := strings.TrimSuffix(strings.Repeat("Nat → ", arity+1), " → ")
+	if !t.extraSet[m] {
+		t.extraSet[m] = true
+		t.extra = append(t.extra, m)
+		t.extraTy[m] = ty
+	} else if t.extraTy[m] != ty {
+		t.fail("method %s used with different numbers of arguments", m)
+	}
 }
 
 func (t *tr) argExpr(e ast.Expr) string {
@@ -514,7 +639,7 @@ func (t *tr) funcLit(f *ast.FuncLit) string {
 	if t.extraTy == nil {
 		t.extraTy = map[string]string{}
 	}
-	sub := &tr{fn: t.fn, params: map[string]bool{}, extraSet: t.extraSet, extraTy: t.extraTy, assigned: t.assigned, known: t.known, types: map[string]string{}}
+	sub := &tr{fn: t.fn, params: map[string]bool{}, extraSet: t.extraSet, extraTy: t.extraTy, assigned: t.assigned, known: t.known, types: map[string]string{}, rangeN: t.rangeN, methods: t.methods, localObj: t.localObj, selfName: t.selfName, selfTy: t.selfTy}
 	for k, v := range t.params {
 		sub.params[k] = v
 	}
@@ -555,7 +680,7 @@ func (t *tr) funcBody(ft *ast.FuncType, body *ast.BlockStmt) string {
 				t.resTypes = append(t.resTypes, ty)
 				t.params[n.Name] = true
 				t.types[n.Name] = ty
-				zero := map[string]string{"uint": "0", "int": "0", "bool": "false", "[2]uint": "((0 : Nat), (0 : Nat))", "error": "none"}[ty]
+				zero := map[string]string{"uint": "0", "int": "0", "bool": "false", "[2]uint": "((0 : Nat), (0 : Nat))", "error": "none", "[]uint": "[]"}[ty]
 				if zero == "" {
 					zero = "0"
 				}
@@ -636,6 +761,8 @@ func (t *tr) stmts(list []ast.Stmt, k []ast.Stmt) string {
 						t.params[nm] = true
 						if i == len(v.Lhs)-1 && (nm == "err" || nm == "er") {
 							t.types[nm] = "error"
+						} else if rts := t.callResultTypes(v.Rhs[0]); len(rts) == len(v.Lhs) {
+							t.types[nm] = rts[i]
 						} else if _, ok := t.types[nm]; !ok {
 							t.types[nm] = "uint"
 						}
@@ -669,6 +796,11 @@ func (t *tr) stmts(list []ast.Stmt, k []ast.Stmt) string {
 				rhs = t.expr(&ast.BinaryExpr{X: v.Lhs[i], Op: op, Y: v.Rhs[i]})
 			}
 			if v.Tok == token.DEFINE {
+				if c, isCall := v.Rhs[i].(*ast.CallExpr); isCall {
+					if r := rootIdent(c); r != "" && t.types[r] == "object" {
+						t.localObj[name] = true
+					}
+				}
 				ty := t.typeOf(v.Rhs[i])
 				if _, isFn := v.Rhs[i].(*ast.FuncLit); isFn {
 					ty = "func"
@@ -684,7 +816,7 @@ func (t *tr) stmts(list []ast.Stmt, k []ast.Stmt) string {
 		}
 		if len(names) == 1 {
 			ann := ""
-			if ty, ok := t.types[names[0]]; ok && (ty == "uint" || ty == "int" || ty == "bool" || ty == "[2]uint" || ty == "error") {
+			if ty, ok := t.types[names[0]]; ok && (ty == "uint" || ty == "int" || ty == "bool" || ty == "[2]uint" || ty == "error" || ty == "[]uint") {
 				ann = " : " + leanType(ty)
 			} else if strings.Contains(names[0], "_") && t.extraSet[names[0]] {
 				ann = " : Nat"
@@ -750,8 +882,24 @@ func (t *tr) stmts(list []ast.Stmt, k []ast.Stmt) string {
 		}
 		return pre + "(if " + t.cond(v.Cond) + " then " + thenS + " else " + elseS + ")"
 	case *ast.SwitchStmt:
-		if v.Tag != nil || v.Init != nil {
-			return t.fail("switch with tag")
+		if v.Init != nil {
+			return t.fail("switch with init")
+		}
+		if v.Tag != nil {
+			// `switch x { case a, b: … }` on a variable: the cases are the tests x == a, x == b
+			if _, ok := v.Tag.(*ast.Ident); !ok {
+				return t.fail("switch with a tag that is not a variable")
+			}
+		}
+		bad := false
+		ast.Inspect(v.Body, func(n ast.Node) bool {
+			if b, ok := n.(*ast.BranchStmt); ok && (b.Tok == token.BREAK || b.Tok == token.FALLTHROUGH) {
+				bad = true
+			}
+			return true
+		})
+		if bad {
+			return t.fail("switch with break/fallthrough")
 		}
 		// tagless switch: first matching case
 		var chain func(i int) string
@@ -775,6 +923,9 @@ func (t *tr) stmts(list []ast.Stmt, k []ast.Stmt) string {
 			}
 			var cs []string
 			for _, e := range conds[i].List {
+				if v.Tag != nil {
+					e = &ast.BinaryExpr{X: v.Tag, Op: token.EQL, Y: e}
+				}
 				cs = append(cs, t.cond(e))
 			}
 			return "(if " + strings.Join(cs, " ∨ ") + " then " + t.stmts(conds[i].Body, cont(nil)) + " else " + chain(i+1) + ")"
@@ -782,12 +933,48 @@ func (t *tr) stmts(list []ast.Stmt, k []ast.Stmt) string {
 		return chain(0)
 	case *ast.ForStmt:
 		return t.forLoop(v, rest, k)
+	case *ast.RangeStmt:
+		// `for _, x := range []uint{e1, …, en} { body }` without break/continue: the elements are evaluated
+		// first (temporaries), then the body is unrolled once per element
+		cl, isLit := v.X.(*ast.CompositeLit)
+		val, isId := v.Value.(*ast.Ident)
+		if !isLit || !isId || src(cl.Type) != "[]uint" || v.Tok != token.DEFINE || (v.Key != nil && src(v.Key) != "_") {
+			return t.fail("range statement %s", src(v.X))
+		}
+		bad := false
+		ast.Inspect(v.Body, func(n ast.Node) bool {
+			if _, ok := n.(*ast.BranchStmt); ok {
+				bad = true
+			}
+			return true
+		})
+		if bad {
+			return t.fail("range body with break/continue")
+		}
+		*t.rangeN++
+		var pre, blocks []ast.Stmt
+		for i, el := range cl.Elts {
+			tmp := ast.NewIdent(fmt.Sprintf("rng%d_%d", *t.rangeN, i))
+			pre = append(pre, &ast.AssignStmt{Lhs: []ast.Expr{tmp}, Tok: token.DEFINE, Rhs: []ast.Expr{el}})
+			bind := &ast.AssignStmt{Lhs: []ast.Expr{val}, Tok: token.DEFINE, Rhs: []ast.Expr{tmp}}
+			blocks = append(blocks, &ast.BlockStmt{List: append([]ast.Stmt{bind}, v.Body.List...)})
+		}
+		return t.stmts(append(pre, blocks...), cont(nil))
 	case *ast.BranchStmt:
 		if v.Tok == token.BREAK && t.brkVar != "" {
 			return "let " + t.brkVar + " : Bool := true; " + t.retTuple(t.results)
 		}
 		return t.fail("branch statement %s", src(v))
 	case *ast.ExprStmt:
+		// `x.M(args)` as a statement on a local object variable x: the method may change x (and only x);
+		// x becomes an uninterpreted function of its old value and the arguments
+		if c, ok := v.X.(*ast.CallExpr); ok {
+			if m, recv, ok := t.localMethod(c); ok {
+				margs := append([]string{recv}, t.methodArgs(c.Args)...)
+				t.registerMethod(m, len(margs))
+				return "let " + recv + " : Nat := (" + m + " " + strings.Join(margs, " ") + "); " + t.stmts(rest, k)
+			}
+		}
 		return t.fail("expression statement %s", src(v))
 	}
 	return t.fail("statement %s", src(s))
@@ -816,6 +1003,12 @@ func assignedVars(t *tr, list []ast.Stmt) []string {
 				} else if m, ok := mangle(a.X); ok {
 					set[m] = true
 				}
+			case *ast.ExprStmt:
+				if c, ok := a.X.(*ast.CallExpr); ok {
+					if _, recv, ok := t.localMethod(c); ok {
+						set[recv] = true
+					}
+				}
 			}
 			return true
 		})
@@ -835,24 +1028,43 @@ func (t *tr) forLoop(v *ast.ForStmt, rest, k []ast.Stmt) string {
 	bad := false
 	hasBreak := false
 	hasRet := false
-	ast.Inspect(v.Body, func(n ast.Node) bool {
-		switch b := n.(type) {
-		case *ast.ReturnStmt:
-			hasRet = true
-		case *ast.ForStmt, *ast.FuncLit:
-			bad = true
-		case *ast.BranchStmt:
-			if b.Tok == token.BREAK && b.Label == nil {
-				hasBreak = true
-			} else {
+	var walk func(n ast.Node, depth int)
+	walk = func(n ast.Node, depth int) {
+		ast.Inspect(n, func(m ast.Node) bool {
+			switch b := m.(type) {
+			case *ast.ReturnStmt:
+				hasRet = true
+				if depth > 0 {
+					bad = true // return out of two loops at once
+				}
+			case *ast.FuncLit:
 				bad = true
+			case *ast.ForStmt:
+				if m == n {
+					return true
+				}
+				walk(b, depth+1)
+				return false
+			case *ast.BranchStmt:
+				if b.Tok == token.BREAK && b.Label == nil {
+					if depth == 0 {
+						hasBreak = true
+					}
+				} else {
+					bad = true
+				}
 			}
-		}
-		return true
-	})
-	if bad || (hasRet && t.retTy == "") {
-		return t.fail("loop with continue/labelled break/nested loop (or return without known result type)")
+			return true
+		})
 	}
+	walk(v.Body, 0)
+	if hasRet && t.retVar != "" {
+		bad = true // a loop with `return` inside the body of another loop
+	}
+	if bad || (hasRet && t.retTy == "") {
+		return t.fail("loop with continue/labelled break/closure/return from a nested loop (or return without known result type)")
+	}
+
 	pre := ""
 	var initStmts []ast.Stmt
 	if v.Init != nil {
@@ -870,9 +1082,14 @@ func (t *tr) forLoop(v *ast.ForStmt, rest, k []ast.Stmt) string {
 	if len(state) == 0 {
 		return t.fail("loop without state")
 	}
-	// locals defined inside the body are not part of the state
+	// locals defined inside the body are not part of the state (the function has no shadowing, see
+	// `shadowing`, so such a name cannot also be a variable of an enclosing scope)
+	bodyLocals := definedIn(body)
 	var st []string
 	for _, s := range state {
+		if bodyLocals[s] {
+			continue
+		}
 		if t.params[s] || t.extraSet[s] || t.assigned[s] {
 			st = append(st, s)
 		} else if _, ok := t.types[s]; ok {
@@ -917,6 +1134,7 @@ func (t *tr) forLoop(v *ast.ForStmt, rest, k []ast.Stmt) string {
 	sub.retVar = ret
 	bodyS := sub.stmts(body, nil)
 	t.extra = sub.extra
+	t.loopN = sub.loopN
 	t.loops = append(t.loops, sub.loops...)
 	if sub.failed != "" && t.failed == "" {
 		t.failed = sub.failed
@@ -946,6 +1164,14 @@ func (t *tr) forLoop(v *ast.ForStmt, rest, k []ast.Stmt) string {
 				if mm, ok := mangle(e); ok {
 					occurs[mm] = true
 				}
+				if mm, _, ok := t.localMethod(e); ok {
+					occurs[mm] = true
+					for _, a := range e.Args {
+						if id, ok := a.(*ast.Ident); ok && t.types[id.Name] == "object" {
+							occurs[id.Name+"_val"] = true
+						}
+					}
+				}
 			}
 			return true
 		})
@@ -962,17 +1188,8 @@ func (t *tr) forLoop(v *ast.ForStmt, rest, k []ast.Stmt) string {
 		inState[s] = true
 	}
 	// names introduced inside the body are locals of the body, never parameters of the loop
-	for _, s := range body {
-		ast.Inspect(s, func(n ast.Node) bool {
-			if a, ok := n.(*ast.AssignStmt); ok && a.Tok == token.DEFINE {
-				for _, l := range a.Lhs {
-					if id, ok := l.(*ast.Ident); ok {
-						inState[id.Name] = true
-					}
-				}
-			}
-			return true
-		})
+	for n := range bodyLocals {
+		inState[n] = true
 	}
 	var cand []string
 	for n := range occurs {
@@ -988,12 +1205,23 @@ func (t *tr) forLoop(v *ast.ForStmt, rest, k []ast.Stmt) string {
 			continue
 		}
 		ty, hasTy := t.types[n]
-		if visible[n] && hasTy && (ty == "uint" || ty == "int" || ty == "bool" || ty == "[2]uint") {
+		if visible[n] && hasTy && (ty == "uint" || ty == "int" || ty == "bool" || ty == "[2]uint" || ty == "[]uint") {
 			free = append(free, n)
 		}
 	}
+	selfArg := ""
+	if t.selfName != "" && occurs[t.selfName] && !inState[t.selfName] {
+		selfArg = "self"
+	}
 	var params []string
+	if selfArg != "" {
+		params = append(params, "(self : "+t.selfTy+")")
+		free = append([]string{selfArg}, free...)
+	}
 	for _, f := range free {
+		if f == selfArg {
+			continue
+		}
 		ty := leanType(t.types[f])
 		if t.extraTy != nil && t.extraTy[f] != "" {
 			ty = t.extraTy[f]
@@ -1024,6 +1252,222 @@ func (t *tr) forLoop(v *ast.ForStmt, rest, k []ast.Stmt) string {
 	return pre + init + "let " + stTuple + " := " + call + "; " + t.stmts(rest, k)
 }
 
+// names declared (`:=`, `var`, range variables) anywhere inside a statement list
+func definedIn(list []ast.Stmt) map[string]bool {
+	set := map[string]bool{}
+	for _, s := range list {
+		ast.Inspect(s, func(n ast.Node) bool {
+			switch a := n.(type) {
+			case *ast.AssignStmt:
+				if a.Tok == token.DEFINE {
+					for _, l := range a.Lhs {
+						if id, ok := l.(*ast.Ident); ok {
+							set[id.Name] = true
+						}
+					}
+				}
+			case *ast.RangeStmt:
+				if a.Tok == token.DEFINE {
+					for _, l := range []ast.Expr{a.Key, a.Value} {
+						if id, ok := l.(*ast.Ident); ok {
+							set[id.Name] = true
+						}
+					}
+				}
+			case *ast.ValueSpec:
+				for _, id := range a.Names {
+					set[id.Name] = true
+				}
+			}
+			return true
+		})
+	}
+	return set
+}
+
+// shadowing reports a name that is declared in a scope nested inside another scope declaring the same
+// name (the translation of blocks by continuation into Lean `let`s would confuse the two variables).
+func shadowing(ft *ast.FuncType, recv *ast.FieldList, body *ast.BlockStmt) string {
+	found := ""
+	type scope map[string]bool
+	var stack []scope
+	declare := func(name string) {
+		if name == "_" || found != "" {
+			return
+		}
+		for _, sc := range stack[:len(stack)-1] {
+			if sc[name] {
+				found = name
+			}
+		}
+		stack[len(stack)-1][name] = true
+	}
+	fields := func(fl *ast.FieldList) {
+		if fl == nil {
+			return
+		}
+		for _, f := range fl.List {
+			for _, n := range f.Names {
+				declare(n.Name)
+			}
+		}
+	}
+	var stmt func(s ast.Stmt)
+	var exprs func(n ast.Node)
+	block := func(list []ast.Stmt) {
+		stack = append(stack, scope{})
+		for _, s := range list {
+			stmt(s)
+		}
+		stack = stack[:len(stack)-1]
+	}
+	exprs = func(n ast.Node) {
+		if n == nil {
+			return
+		}
+		ast.Inspect(n, func(m ast.Node) bool {
+			if fl, ok := m.(*ast.FuncLit); ok {
+				stack = append(stack, scope{})
+				fields(fl.Type.Params)
+				fields(fl.Type.Results)
+				block(fl.Body.List)
+				stack = stack[:len(stack)-1]
+				return false
+			}
+			return true
+		})
+	}
+	stmt = func(s ast.Stmt) {
+		switch v := s.(type) {
+		case nil:
+		case *ast.AssignStmt:
+			for _, r := range v.Rhs {
+				exprs(r)
+			}
+			if v.Tok == token.DEFINE {
+				for _, l := range v.Lhs {
+					if id, ok := l.(*ast.Ident); ok {
+						declare(id.Name)
+					}
+				}
+			}
+		case *ast.DeclStmt:
+			if gd, ok := v.Decl.(*ast.GenDecl); ok {
+				for _, sp := range gd.Specs {
+					if vs, ok := sp.(*ast.ValueSpec); ok {
+						for _, e := range vs.Values {
+							exprs(e)
+						}
+						for _, id := range vs.Names {
+							declare(id.Name)
+						}
+					}
+				}
+			}
+		case *ast.BlockStmt:
+			block(v.List)
+		case *ast.IfStmt:
+			stack = append(stack, scope{})
+			stmt(v.Init)
+			exprs(v.Cond)
+			block(v.Body.List)
+			if v.Else != nil {
+				stmt(v.Else)
+			}
+			stack = stack[:len(stack)-1]
+		case *ast.ForStmt:
+			stack = append(stack, scope{})
+			stmt(v.Init)
+			exprs(v.Cond)
+			stmt(v.Post)
+			block(v.Body.List)
+			stack = stack[:len(stack)-1]
+		case *ast.RangeStmt:
+			stack = append(stack, scope{})
+			exprs(v.X)
+			if v.Tok == token.DEFINE {
+				for _, l := range []ast.Expr{v.Key, v.Value} {
+					if id, ok := l.(*ast.Ident); ok {
+						declare(id.Name)
+					}
+				}
+			}
+			block(v.Body.List)
+			stack = stack[:len(stack)-1]
+		case *ast.SwitchStmt:
+			stack = append(stack, scope{})
+			stmt(v.Init)
+			exprs(v.Tag)
+			for _, c := range v.Body.List {
+				cc := c.(*ast.CaseClause)
+				for _, e := range cc.List {
+					exprs(e)
+				}
+				block(cc.Body)
+			}
+			stack = stack[:len(stack)-1]
+		default:
+			exprs(s)
+		}
+	}
+	stack = append(stack, scope{})
+	fields(recv)
+	fields(ft.Params)
+	fields(ft.Results)
+	for _, s := range body.List {
+		stmt(s)
+	}
+	return found
+}
+
+// result types of a call of a translated function (or of the function itself)
+func (t *tr) callResultTypes(e ast.Expr) []string {
+	c, ok := e.(*ast.CallExpr)
+	if !ok {
+		return nil
+	}
+	id, ok := c.Fun.(*ast.Ident)
+	if !ok {
+		return nil
+	}
+	if rts, ok := t.types["rets:"+id.Name]; ok {
+		return strings.Split(rts, ",")
+	}
+	return nil
+}
+
+func callsItself(f *fn) bool {
+	recursive := false
+	if f.decl.Recv == nil {
+		ast.Inspect(f.decl.Body, func(n ast.Node) bool {
+			if c, ok := n.(*ast.CallExpr); ok {
+				if id, ok := c.Fun.(*ast.Ident); ok && id.Name == f.decl.Name.Name {
+					recursive = true
+				}
+			}
+			return true
+		})
+	}
+	return recursive
+}
+
+func resultTypes(ft *ast.FuncType) []string {
+	var out []string
+	if ft.Results == nil {
+		return nil
+	}
+	for _, fld := range ft.Results.List {
+		n := len(fld.Names)
+		if n == 0 {
+			n = 1
+		}
+		for i := 0; i < n; i++ {
+			out = append(out, src(fld.Type))
+		}
+	}
+	return out
+}
+
 func (t *tr) isKnownFunc(n string) bool {
 	_, ok := t.known[n]
 	return ok
@@ -1033,13 +1477,25 @@ func (f *fn) leanName() string {
 	return "go_" + strings.ReplaceAll(f.key, ".", "_")
 }
 
+func newTr(f *fn, known map[string]string, retTypes map[string]string) *tr {
+	t := &tr{fn: f, params: map[string]bool{}, extraSet: map[string]bool{}, extraTy: map[string]string{}, assigned: map[string]bool{}, known: known, types: map[string]string{}, rangeN: new(int), methods: map[string]string{}, localObj: map[string]bool{}}
+	for k, v := range retTypes {
+		if strings.HasPrefix(k, "rets:") {
+			t.types[k] = v
+		} else {
+			t.types["ret:"+k] = v
+		}
+	}
+	if name := shadowing(f.decl.Type, f.decl.Recv, f.decl.Body); name != "" {
+		t.fail("variable %s is declared again in a nested scope", name)
+	}
+	return t
+}
+
 // translateFn returns the Lean definitions (loops first) for one function
 func translateFn(f *fn, known map[string]string, retTypes map[string]string) string {
-	t := &tr{fn: f, params: map[string]bool{}, extraSet: map[string]bool{}, extraTy: map[string]string{}, assigned: map[string]bool{}, known: known, types: map[string]string{}}
-	for k, v := range retTypes {
-		t.types["ret:"+k] = v
-	}
-	var ps []string
+	t := newTr(f, known, retTypes)
+	var ps, pTys []string
 	if f.decl.Recv != nil && len(f.decl.Recv.List) > 0 && len(f.decl.Recv.List[0].Names) > 0 {
 		t.recvName = f.decl.Recv.List[0].Names[0].Name
 		t.params[t.recvName] = true
@@ -1050,6 +1506,7 @@ func translateFn(f *fn, known map[string]string, retTypes map[string]string) str
 		for _, n := range fld.Names {
 			t.params[n.Name] = true
 			t.types[n.Name] = ty
+			pTys = append(pTys, leanType(ty))
 			if ty == "uint" || ty == "int" || ty == "bool" || ty == "[2]uint" || ty == "Order" || ty == "[]uint" {
 				ps = append(ps, "("+n.Name+" : "+leanType(ty)+")")
 			} else {
@@ -1087,7 +1544,20 @@ func translateFn(f *fn, known map[string]string, retTypes map[string]string) str
 		}
 		t.retTy = strings.Join(rts, " × ")
 	}
+	// a function that calls itself is translated with a recursion fuel as its first argument
+	recursive := callsItself(f)
+	if recursive {
+		t.selfName = f.decl.Name.Name
+		t.selfTy = strings.Join(append(append([]string{}, pTys...), t.retTy), " → ")
+		t.types["rets:"+t.selfName] = strings.Join(resultTypes(f.decl.Type), ",")
+		if rts := resultTypes(f.decl.Type); len(rts) == 1 {
+			t.types["ret:"+t.selfName] = rts[0]
+		}
+	}
 	body := t.funcBody(f.decl.Type, f.decl.Body)
+	if recursive && (len(t.extra) > 0 || len(ps) != len(pTys)) {
+		t.fail("recursive function with object parameters")
+	}
 	var extra []string
 	for _, e := range t.extra {
 		ty := "Nat"
@@ -1124,6 +1594,20 @@ func translateFn(f *fn, known map[string]string, retTypes map[string]string) str
 		}
 		retTy = " : " + strings.Join(rts, " × ")
 	}
+	if recursive {
+		var names, binders []string
+		for _, fld := range f.decl.Type.Params.List {
+			for _, n := range fld.Names {
+				names = append(names, n.Name)
+				binders = append(binders, "(x_"+n.Name+" : "+leanType(src(fld.Type))+")")
+			}
+		}
+		wild := strings.TrimSuffix(strings.Repeat("_, ", len(names)), ", ")
+		fmt.Fprintf(&b, "/-- translated from %s (calls itself: the first argument bounds the recursion depth; `default` when it is used up) -/\ndef %s : Nat → %s\n  | 0, %s => default\n  | recFuel + 1, %s =>\n    let self : %s := (fun %s => %s recFuel %s);\n    %s\n\n",
+			f.key, f.leanName(), t.selfTy, wild, strings.Join(names, ", "), t.selfTy, strings.Join(binders, " "), f.leanName(),
+			"x_"+strings.Join(names, " x_"), body)
+		return b.String()
+	}
 	fmt.Fprintf(&b, "/-- translated from %s -/\ndef %s %s%s :=\n  %s\n\n", f.key, f.leanName(), strings.TrimSpace(strings.Join(append(extra, ps...), " ")), retTy, body)
 	return b.String()
 }
@@ -1135,6 +1619,7 @@ var translateList = []string{
 	"bivariate.DegLex", "bivariate.DegRevLex", "bivariate.addDegs", "bivariate.subtractDegs",
 	"binfield.bitQuoRem", "binfield.bitProd", "binfield.Element.reduce",
 	"primefield.estimateMemory", "extfield.estimateMemory",
+	"auxmath.Factorize",
 }
 
 func writeCode(funcs map[string]*fn, path string) {
@@ -1154,9 +1639,13 @@ func writeCode(funcs map[string]*fn, path string) {
 		b.WriteString(translateFn(f, known, retTypes))
 		parts := strings.Split(key, ".")
 		known[parts[len(parts)-1]] = f.leanName()
+		if callsItself(f) {
+			known[parts[len(parts)-1]] = f.leanName() + " loopFuel"
+		}
 		if f.decl.Type.Results != nil && len(f.decl.Type.Results.List) == 1 {
 			retTypes[parts[len(parts)-1]] = src(f.decl.Type.Results.List[0].Type)
 		}
+		retTypes["rets:"+parts[len(parts)-1]] = strings.Join(resultTypes(f.decl.Type), ",")
 	}
 	for _, sp := range suffixList {
 		f, ok := funcs[sp.key]
@@ -1191,13 +1680,13 @@ var suffixList = []suffixSpec{
 	{"binfield.Element.Add", "a.val ^= bb.val", "core"},
 	{"binfield.Element.Prod", "res := uint(0)", "core"},
 	{"binfield.Element.Inv", "r0 := a.field.conwayPoly", "core"},
+	{"binfield.Element.Pow", "if a.IsZero()", "core"},
+	{"primefield.Element.Pow", "if a.IsZero()", "core"},
+	{"binfield.Element.Trace", "out := a.Copy()", "core"},
 }
 
 func translateSuffix(f *fn, spec suffixSpec, known map[string]string, retTypes map[string]string) string {
-	t := &tr{fn: f, params: map[string]bool{}, extraSet: map[string]bool{}, extraTy: map[string]string{}, assigned: map[string]bool{}, known: known, types: map[string]string{}}
-	for k, v := range retTypes {
-		t.types["ret:"+k] = v
-	}
+	t := newTr(f, known, retTypes)
 	name := f.leanName() + "_" + spec.name
 	var ps []string
 	if f.decl.Recv != nil && len(f.decl.Recv.List) > 0 && len(f.decl.Recv.List[0].Names) > 0 {
